@@ -47,9 +47,15 @@ def make_client_class(env, addr2id):
                 return result
             env.xid += 1
             exc = ConnectionResetError("down %d" % env.xid) if h == "os" else MemcacheUnknownError("bad %d" % env.xid)
-            if env.xid % 3 == 0 and h == "os":
+            if env.xid % 4 == 0 and h == "os":
                 import socket
                 exc = socket.timeout("timed out %d" % env.xid)
+            elif env.xid % 4 == 1 and h == "os":
+                import errno
+                exc = OSError(errno.EHOSTUNREACH, "No route to host %d" % env.xid)     # a connection-level error that is no ConnectionError
+            elif env.xid % 4 == 2 and h == "os":
+                import socket
+                exc = socket.gaierror(-2, "Name or service not known %d" % env.xid)
             env.raised[id(exc)] = env.xid
             env.keep.append(exc)
             env.events.append({"e": "contact", "s": self.sid, "k": kid, "ok": False, "os": h == "os", "x": env.xid})
